@@ -13,6 +13,7 @@ identified by its handle `pkt` (byte equality of HandshakePacket[0] in the code)
 of re-processing it is arbitrary.
 -/
 import Nebula.Lemmas.HsManagerStep
+import Nebula.Model.HsNet
 
 namespace Nebula.Props.C10
 open Nebula.HsManager Nebula.Lemmas.HsManager
@@ -109,6 +110,20 @@ theorem fresh_stage1_recorded (n : Node) (via : UNode) (pkt : Handle) (c : Compl
   unfold Node.beginHandshake
   simp only [hok, Bool.not_true, Bool.false_eq_true, if_false]
   rw [hcac]
+
+/-- Re-framed replays. The 16-byte nebula header of a handshake packet is not authenticated: a replay of a first
+message with altered reserved bytes (any value `r`) and the counter left alone or rewritten to 1 is, for the
+manager, the SAME message — the identity of a first message (`pkt0`, what `replay_no_new` compares) is the Noise
+message without the header. (A first message whose counter is rewritten to anything else is dispatched as a
+continuation for index 0 and dropped; `Net.resolve` spells out the dispatch.) -/
+theorem reframed_first_message_is_the_same_replay (w : Nebula.HsNet.Net) (j r c : Nat) (hj : j < w.log.length)
+    (creator : Nat) (h : Handle) (initIdx time ver : Nat)
+    (hp : (w.log[w.log.length - 1 - j]?).bind (fun e => alookup e.1 w.pkts) = some (creator, .s1 h initIdx time ver))
+    (hc : c = 0 ∨ c = 1) :
+    w.step (.dlm j r c) = w.step (.dl j) := by
+  unfold Nebula.HsNet.Net.step Nebula.HsNet.Net.resolve
+  simp only [hj, if_true, hp]
+  rcases hc with e | e <;> simp [e]
 
 -- non-vacuity: establish, replay (state unchanged, original reply resent), then rotate and replay the first again
 def cfg0 : Cfg := { node := 1, myAddrs := [2], hasV1 := false, hasV2 := true, retries := 3, interval := 100000000 }
